@@ -17,6 +17,7 @@ func init() {
 func checkC08(c *Ctx, r *Report) {
 	// "the command fails instead of writing an invalid document": a rejected document is a non-zero exit (shared with C14.d, C20.a)
 	defer checkCommandExitStatus(c, r, "C08.a")
+	defer checkOrderedJSONIsEncoderOutput(c, r, "C08.b")
 	defer func() { ruleRegexInventory(c, r, "C08.d", "core/validators", "common") }()
 	w := c.W
 	r.NotDecided = append(r.NotDecided,
@@ -652,4 +653,49 @@ func checkEnumMembersTyped(c *Ctx, r *Report, clause string) {
 		}
 		r.add(clause, "vocabulary", fk+":enum-members-typed", "enum members of integer / number schemas are parsed as that type only", []string{fk}, sites, viol)
 	}
+}
+
+// checkOrderedJSONIsEncoderOutput: the 3.0 document is validated, then re-ordered by
+// ForceOrderedJSON, then written: nothing validates what ForceOrderedJSON returns, so it must be
+// a JSON encoder's output as it is - any textual post-processing (un-escaping, trimming, a
+// replacer) can produce bytes that are not a JSON document at all.
+func checkOrderedJSONIsEncoderOutput(c *Ctx, r *Report, clause string) {
+	w := c.W
+	const fo = "generator/swagen/swagtool.ForceOrderedJSON"
+	fi := need(c, r, clause, fo)
+	if fi == nil {
+		return
+	}
+	viol := ""
+	var sites []string
+	n := 0
+	for _, ex := range exitsOf(fi.SSA) {
+		if ex.Ret == nil || ex.Kind != exitSuccess || len(ex.Ret.Results) != 2 {
+			continue
+		}
+		sites = append(sites, w.pos(retPos(ex)))
+		for _, ov := range w.originValues(unspill(ex.Ret.Results[0], ex.Block)) {
+			ov = stripTrivial(ov)
+			if k, ok := ov.(*ssa.Const); ok && k.IsNil() {
+				continue
+			}
+			n++
+			okEnc := false
+			if e, ok := ov.(*ssa.Extract); ok && e.Index == 0 {
+				if cl, ok := e.Tuple.(*ssa.Call); ok {
+					switch calleeName(cl) {
+					case "encoding/json.MarshalIndent", "encoding/json.Marshal":
+						okEnc = true
+					}
+				}
+			}
+			if !okEnc {
+				viol = fmt.Sprintf("%s: ForceOrderedJSON returns %s, not the JSON encoder's output as it is: the bytes written to the spec file were never parsed or validated in that form", w.pos(retPos(ex)), sliceOf(ov))
+			}
+		}
+	}
+	if n == 0 {
+		viol = "no success return of ForceOrderedJSON yields a value"
+	}
+	r.add(clause, "fieldflow", fo+":returns-encoder-output", "the re-ordered document is the JSON encoder's output, untouched", []string{fo}, sites, viol)
 }
